@@ -16,7 +16,7 @@ if r.returncode != 0:
     print("PATCH-FAILED", r.stderr[:300]); sys.exit(2)
 out = {}
 for p in props:
-    r = sh("./check %s" % p, cwd="/verif", env=dict(os.environ, VERIF_REPO=W))
+    r = sh("./check %s" % p, cwd=os.path.dirname(os.path.dirname(os.path.abspath(__file__))), env=dict(os.environ, VERIF_REPO=W))
     lines = [l for l in r.stdout.split("\n") if l.startswith(("VIOLATION", "FAILED-OB", "UNDECIDED", "OK", "KNOWN"))]
     out[p] = {"exit": r.returncode, "lines": lines[:6]}
     print(p, "exit=%d" % r.returncode, "|", " || ".join(l[:160] for l in lines[:3]))
